@@ -334,7 +334,8 @@ def token_boundary_lang(alpha, markers):
 
 def r2_roundtrip(rep, src, M):
     f, variants = extract_writer(src, rep)
-    worlds, fdump = M.dump_worlds()
+    substs = []
+    worlds, fdump = M.dump_worlds(substitutions=substs)
     alpha = M.alpha
     dom = M.domain('')
     token = M.pat(r'[^\s]+').intersect(dom)
@@ -344,6 +345,11 @@ def r2_roundtrip(rep, src, M):
         vlang = strlang.TBuilder(alpha, [], lambda p: base[p], {}).lang(vterm)
         if vlang.is_empty():
             continue
+        for term_, old_, new_, preds_, line_ in substs:
+            # a substitution on the way out must be the identity on the text of the structured values (else: not modelled here)
+            import re as _re
+            if strlang.slots_of(term_) != ['value'] or M.refine(vlang, preds_).intersect(M.pat('(?s:.*)' + _re.escape(old_) + '(?s:.*)')).witness() is not None:
+                raise AnalysisError('%s: line %d rewrites the value with replace(%r, %r): outside the template vocabulary of this rule' % (fdump.site, line_, old_, new_))
         hit = []
         for term, preds in worlds:
             inside = M.refine(vlang, preds)
